@@ -526,6 +526,9 @@ func (fr *frame) step(ins ssa.Instruction) bool {
 	case *ssa.Next:
 		fr.set(ins, p.next(ins, fr.get(ins.Iter)))
 	case *ssa.FieldAddr:
+		if p.threadsSt != nil && p.threadsSt.active {
+			p.preemptionPoint(fr.fn)
+		}
 		x := fr.get(ins.X).(Ptr)
 		if x == nil {
 			p.goPanicf("nil-deref", "nil pointer dereference (field %d)", ins.Field)
